@@ -127,9 +127,9 @@ class Memory(Backend):
 
     async def _delete(self, key: Key) -> bool:
         if key in self.store:
-            del self.store[key]
+            expire_at, _ = self.store.pop(key)
             await self._call_on_remove_callbacks(key)
-            return True
+            return not (expire_at and expire_at <= time.time())
         return False
 
     async def delete_many(self, *keys: Key):
